@@ -11,6 +11,9 @@ import (
 	"fmt"
 	"math"
 	"math/big"
+	"reflect"
+	"regexp"
+	"strconv"
 	"sort"
 	"strings"
 
@@ -796,13 +799,21 @@ func main() {
 			setupUniverse(token)
 		}
 		r := rng.Fork()
-		p002 := r.Intn(8) != 0
-		exotic := r.Intn(5) == 0
-		if p002 {
-			common.LocalChainConfig.Proposal002Block = 0
-		} else {
-			common.LocalChainConfig.Proposal002Block = 1 << 60
+		// fork regime: proposals 1..frontier are active at the harness height, the later ones are not; every gate
+		// sits just below / at / above the height (or far away), so whichever ProposalNNN a piece of code consults is
+		// exercised on both sides with its neighbours on either side.  The model has ONE gate: Proposal002.
+		frontier := 99
+		switch r.Intn(8) {
+		case 0:
+			frontier = r.Intn(2) // before Proposal002 (listed finding: balances unjournalled)
+		case 1, 2:
+			frontier = 2 // the window: 002 active, 003 not yet
+		case 3:
+			frontier = 3 + r.Intn(25)
 		}
+		regime := setRegime(r, frontier)
+		p002 := common.IsProposal002()
+		exotic := r.Intn(5) == 0
 		// committed start state from a random prefix
 		adb := newDB()
 		s0, _ := account.NewAccountDB(common.Hash{}, adb)
@@ -1049,8 +1060,13 @@ func main() {
 			}
 		}, false)
 		class := "p002"
-		if !p002 {
+		switch {
+		case !p002:
 			class = "pre002"
+		case frontier == 2:
+			class = "p002-window(003 not yet)"
+		case frontier < 99:
+			class = "p002-partial(later proposals not yet)"
 		}
 		if ci >= phase2At {
 			class += "/bound-token"
@@ -1081,7 +1097,7 @@ func main() {
 					key = "C04/revert:suicide-undo-reencodes-balance-slot"
 				}
 				res.Violate(key, fmt.Sprintf("query %s answered %s before Snapshot and %s after RevertToSnapshot", q.coq(), diffShow(b.before[i], b.after[i]), diffShow(b.after[i], b.before[i])),
-					map[string]interface{}{"p002": p002, "token_bound": ci >= phase2At, "start": coqDump(start), "program": ptxt, "bracket": trunc(coqItems([]*Item{b.it}), 4000)})
+					map[string]interface{}{"p002": p002, "regime": regime, "token_bound": ci >= phase2At, "start": coqDump(start), "program": ptxt, "bracket": trunc(coqItems([]*Item{b.it}), 4000)})
 			}
 			cl := class + "/revert-ok"
 			if !ok {
@@ -1116,7 +1132,7 @@ func main() {
 					if ga[i] != gr[i] {
 						gok = false
 						res.Violate("C04/continuation:"+gq[i].K, fmt.Sprintf("at the end of the program %s answers %s, in the reference replay of the surviving operations %s", gq[i].coq(), diffShow(ga[i], gr[i]), diffShow(gr[i], ga[i])),
-							map[string]interface{}{"p002": p002, "start": coqDump(start), "program": ptxt, "reference_program": coqItems(ref)})
+							map[string]interface{}{"p002": p002, "regime": regime, "start": coqDump(start), "program": ptxt, "reference_program": coqItems(ref)})
 					}
 				}
 				if gok {
@@ -1150,7 +1166,7 @@ func main() {
 					key = "C04/root-after-revert:touch-undo-leaves-dirty-callback-disarmed"
 				}
 				res.Violate(key, fmt.Sprintf("IntermediateRoot(%v)=%s but Commit(%v)=%s", del, ir.Hex(), del, cr.Hex()),
-					map[string]interface{}{"p002": p002, "start": coqDump(start), "program": ptxt})
+					map[string]interface{}{"p002": p002, "regime": regime, "start": coqDump(start), "program": ptxt})
 			}
 			rir, _, rd, e2 := finalise(rc, adb, del)
 			if e2 != nil {
@@ -1187,7 +1203,7 @@ func main() {
 					// the program satisfies the guard of theorem C04_continuation: no listed finding may explain this
 					key = "C04/continuation:root-differs-under-theorem-guard"
 				}
-				res.Violate(key, what, map[string]interface{}{"deleteEmptyObjects": del, "p002": p002, "token_bound": ci >= phase2At,
+				res.Violate(key, what, map[string]interface{}{"deleteEmptyObjects": del, "p002": p002, "regime": regime, "token_bound": ci >= phase2At,
 					"start": coqDump(start), "program": ptxt, "reference_program": coqItems(ref),
 					"root": ir.Hex(), "reference_root": rir.Hex(), "leaves": coqDump(d), "reference_leaves": coqDump(rd)})
 			}
@@ -1208,11 +1224,11 @@ func main() {
 			res.Count(class+"/too-large-for-a-model-case(direct search only)", ptxt+"/big", true)
 		}
 		if len(term) < 60000 {
-			cs.Add(term, map[string]interface{}{"p002": p002, "token_bound": ci >= phase2At, "start": coqDump(start), "program": ptxt})
+			cs.Add(term, map[string]interface{}{"p002": p002, "regime": regime, "token_bound": ci >= phase2At, "start": coqDump(start), "program": ptxt})
 		}
 		if sampled < 8 && ci%37 == 0 {
 			sampled++
-			res.Sample(map[string]interface{}{"p002": p002, "start": coqDump(start), "program": trunc(ptxt, 600), "answers": len(c1.answers),
+			res.Sample(map[string]interface{}{"p002": p002, "regime": regime, "start": coqDump(start), "program": trunc(ptxt, 600), "answers": len(c1.answers),
 				"leaves_after_IntermediateRoot(false)": trunc(coqDump(fin[0]), 300)})
 		}
 	}
@@ -1317,6 +1333,38 @@ func volumeProgram(r *hx.Rng, first, thorough bool) ([]*Item, string) {
 		prog = append(prog, mk(before+inside+i))
 	}
 	return prog, fmt.Sprintf("volume: %d x %s before the snapshot, %d inside the reverted bracket, 3 after", before, kind, inside)
+}
+
+var gateName = regexp.MustCompile(`^Proposal(\d+)Block$`)
+
+// setRegime sets every ProposalNNNBlock of common.LocalChainConfig: NNN <= frontier active at the current height
+// (gate at the height, one below it, or 0), NNN > frontier inactive (gate one above the height, or far away).
+func setRegime(r *hx.Rng, frontier int) string {
+	h := common.GetBlockHeight()
+	v := reflect.ValueOf(&common.LocalChainConfig).Elem()
+	t := v.Type()
+	n := 0
+	for i := 0; i < t.NumField(); i++ {
+		m := gateName.FindStringSubmatch(t.Field(i).Name)
+		fv := v.Field(i)
+		if m == nil || fv.Kind() != reflect.Uint64 || !fv.CanSet() {
+			continue
+		}
+		k, _ := strconv.Atoi(m[1])
+		n++
+		if k <= frontier {
+			fv.SetUint([]uint64{0, h - 1, h}[r.Intn(3)])
+		} else {
+			fv.SetUint([]uint64{h + 1, 1 << 60}[r.Intn(2)])
+		}
+	}
+	if n < 20 {
+		panic("setRegime: the ProposalNNNBlock fields of common.ChainConfig were not found")
+	}
+	if frontier >= 99 {
+		return "all proposals active"
+	}
+	return fmt.Sprintf("proposals 001..%03d active, later ones not (height %d)", frontier, h)
 }
 
 func coqCodes() string {
